@@ -22,6 +22,15 @@ MulSmall(b, k) ==
   IF k = 0 \/ b = << >> THEN << >>
   ELSE Add(IF k % 2 = 1 THEN b ELSE << >>, ShiftL(MulSmall(b, k \div 2), 1))
 
+\* b rounded to p significant bits, ties to even (the integer -> IEEE float
+\* conversion for p = 53 / 24 when no overflow occurs)
+RoundSigBits(b, p) ==
+  IF Len(b) <= p THEN b
+  ELSE LET d == Len(b) - p
+           kept == ShiftR(b, d)
+           up == b[d] = 1 /\ ((\E j \in 1..(d - 1) : b[j] = 1) \/ kept[1] = 1)
+       IN ShiftL(IF up THEN Add(kept, <<1>>) ELSE kept, d)
+
 \* |a - b|
 AbsDiff(a, b) == IF Leq(b, a) THEN Sub(a, b) ELSE Sub(b, a)
 
